@@ -121,6 +121,10 @@ type Machine struct {
 	ifConverted int
 	varMask     map[*Term]*[4]uint64
 	varMixed    map[*Term]bool
+	maskOrder   []*Term
+	known       map[*Term]uint64
+	concSample  bool
+	sampledSites map[string]int
 	localDecided int
 	supMemo     map[*Term][]*Term
 
@@ -154,6 +158,7 @@ func NewMachine(prog *ssa.Program) *Machine {
 		m.errorStringType = types.NewPointer(ep.Type("errorString").Object().Type())
 	}
 	m.intrinsics = builtinIntrinsics()
+	m.sampledSites = map[string]int{}
 	return m
 }
 
@@ -195,13 +200,18 @@ func (m *Machine) addPC(t *Term) {
 	if t.IsTrue() {
 		return
 	}
-	m.pc = append(m.pc, t)
+	if t.tab == nil {
+		m.pc = append(m.pc, t)
+	}
 	if t.tab != nil {
+		// single-small-variable conjuncts are kept as a value mask per variable (sent to the solver as one
+		// membership constraint per variable, see pcFull)
 		v := t.sup1
 		mk := m.varMask[v]
 		if mk == nil {
 			mk = &[4]uint64{^uint64(0), ^uint64(0), ^uint64(0), ^uint64(0)}
 			m.varMask[v] = mk
+			m.maskOrder = append(m.maskOrder, v)
 		}
 		for i, x := range t.tab {
 			if x == 0 {
@@ -213,6 +223,36 @@ func (m *Machine) addPC(t *Term) {
 	for _, v := range m.supportVars(t) {
 		m.varMixed[v] = true
 	}
+}
+
+// pcFull returns the path condition for the solver: the multi-variable conjuncts followed by one
+// membership constraint per masked variable.
+func (m *Machine) pcFull() []*Term {
+	if len(m.maskOrder) == 0 {
+		return m.pc
+	}
+	out := append([]*Term(nil), m.pc...)
+	for _, v := range m.maskOrder {
+		mk := m.varMask[v]
+		n := 1 << v.w
+		vals := make([]uint64, n)
+		all := true
+		for i := 0; i < n; i++ {
+			if mk[i>>6]&(1<<(uint(i)&63)) != 0 {
+				vals[i] = 1
+			} else {
+				all = false
+			}
+		}
+		if all {
+			continue
+		}
+		c := m.f.Cmp(OEq, m.f.Tbl(m.f.NewTable(1, vals), v), m.f.Const(1, 1))
+		if !c.IsTrue() {
+			out = append(out, c)
+		}
+	}
+	return out
 }
 
 // supportVars returns the variables occurring in t.
@@ -295,7 +335,7 @@ func (m *Machine) check(extra *Term) (Result, map[*Term]uint64) {
 	if !m.deadline.IsZero() && time.Now().After(m.deadline) {
 		return RUnknown, nil
 	}
-	r, model := m.solver.Check(m.pc, extra, true)
+	r, model := m.solver.Check(m.pcFull(), extra, true)
 	return r, model
 }
 
@@ -304,7 +344,111 @@ func (m *Machine) branchT(c *Term) bool {
 	if c.IsConst() {
 		return c.c == 1
 	}
+	if v, ok := m.decideByMask(c); ok {
+		return v
+	}
 	return m.branch(c)
+}
+
+// substKnown rewrites t replacing sub-terms whose value the path condition has fixed (by a
+// concretisation decision) with that constant, a few levels deep.
+func (m *Machine) substKnown(t *Term, depth int) *Term {
+	if len(m.known) == 0 || t.IsConst() {
+		return t
+	}
+	if c, ok := m.known[t]; ok {
+		return m.f.Const(t.w, c)
+	}
+	if depth == 0 || t.op == OVar {
+		return t
+	}
+	f := m.f
+	switch t.op {
+	case OBNot:
+		return f.Not(m.substKnown(t.a, depth-1))
+	case OBAnd:
+		return f.And(m.substKnown(t.a, depth-1), m.substKnown(t.b, depth-1))
+	case OBOr:
+		return f.Or(m.substKnown(t.a, depth-1), m.substKnown(t.b, depth-1))
+	case OEq, OUlt, OUle, OSlt, OSle:
+		a, b := m.substKnown(t.a, depth-1), m.substKnown(t.b, depth-1)
+		if a == t.a && b == t.b {
+			return t
+		}
+		return f.Cmp(t.op, a, b)
+	case OZext:
+		a := m.substKnown(t.a, depth-1)
+		if a == t.a {
+			return t
+		}
+		return f.Zext(a, t.w)
+	case OSext:
+		a := m.substKnown(t.a, depth-1)
+		if a == t.a {
+			return t
+		}
+		return f.Sext(a, t.w)
+	case OExtract:
+		a := m.substKnown(t.a, depth-1)
+		if a == t.a {
+			return t
+		}
+		return f.Extract(a, uint8(t.c), t.w)
+	case OAdd, OSub, OMul, OAnd, OOr, OXor, OShl, OLShr, OAShr, OUDiv, OURem:
+		a, b := m.substKnown(t.a, depth-1), m.substKnown(t.b, depth-1)
+		if a == t.a && b == t.b {
+			return t
+		}
+		return f.Bin(t.op, a, b)
+	case OIte:
+		c := m.substKnown(t.a, depth-1)
+		if c.IsConst() {
+			if c.c == 1 {
+				return m.substKnown(t.b, depth-1)
+			}
+			return m.substKnown(t.d, depth-1)
+		}
+	}
+	return t
+}
+
+// decideByMask: a condition over one small variable whose value is the same for every value the path
+// condition still allows for that variable is decided without forking (the mask over-approximates the
+// feasible values, so agreement over the mask implies agreement over all feasible values).
+func (m *Machine) decideByMask(c *Term) (bool, bool) {
+	if m.concrete != nil {
+		return false, false
+	}
+	if len(m.known) > 0 {
+		if k := m.substKnown(c, 4); k.IsConst() {
+			return k.c == 1, true
+		}
+	}
+	if c.tab == nil {
+		return false, false
+	}
+	mk := m.varMask[c.sup1]
+	if mk == nil {
+		return false, false
+	}
+	seenT, seenF := false, false
+	for i, x := range c.tab {
+		if mk[i>>6]&(1<<(uint(i)&63)) == 0 {
+			continue
+		}
+		if x != 0 {
+			seenT = true
+		} else {
+			seenF = true
+		}
+		if seenT && seenF {
+			return false, false
+		}
+	}
+	if seenT == seenF { // empty mask: infeasible path, let the normal machinery handle it
+		return false, false
+	}
+	return seenT, true
 }
 
 // branch decides a symbolic condition, forking the exploration.
@@ -369,6 +513,12 @@ func (m *Machine) concretize(t *Term) uint64 {
 	if m.spec {
 		panic(specFail{"concretize"})
 	}
+	if v, ok := m.known[t]; ok {
+		return v
+	}
+	if k := m.substKnown(t, 4); k.IsConst() {
+		return k.c
+	}
 	n := 0
 	for {
 		if m.pos < len(m.prefix) {
@@ -381,6 +531,7 @@ func (m *Machine) concretize(t *Term) uint64 {
 			eq := m.f.Cmp(OEq, t, m.f.Const(t.w, d.val))
 			if d.taken {
 				m.addPC(eq)
+				m.known[t] = d.val
 				return d.val
 			}
 			m.addPC(m.f.Not(eq))
@@ -393,7 +544,11 @@ func (m *Machine) concretize(t *Term) uint64 {
 		v := m.eval(t)
 		eq := m.f.Cmp(OEq, t, m.f.Const(t.w, v))
 		if n >= m.concCap {
-			m.inconclusiveF("more than %d feasible values at concretisation site %s", m.concCap, m.where())
+			if m.concSample {
+				m.sampledSites[shortFn(m.where())]++
+			} else {
+				m.inconclusiveF("more than %d feasible values at concretisation site %s", m.concCap, m.where())
+			}
 		} else {
 			r, model := m.check(m.f.Not(eq))
 			switch r {
@@ -409,15 +564,19 @@ func (m *Machine) concretize(t *Term) uint64 {
 		m.decisions = append(m.decisions, decision{taken: true, conc: true, val: v, term: t})
 		m.pos++
 		m.addPC(eq)
+		m.known[t] = v
 		return v
 	}
 }
 
-func (m *Machine) concretizeLen(t *Term, what string) int {
+func (m *Machine) concretizeLen(t *Term, signed bool) int {
 	if t.IsConst() {
-		return int(sext(t.c, t.w))
+		if signed {
+			return int(sext(t.c, t.w))
+		}
+		return int(t.c)
 	}
-	return int(int64(m.concretize(m.f.Resize(t, 64, true))))
+	return int(int64(m.concretize(m.f.Resize(t, 64, signed))))
 }
 
 func (m *Machine) allocViolation(n int) {
@@ -520,7 +679,7 @@ func (m *Machine) assert(c *Term, label string) {
 	case RUnsat:
 		if m.xsolver != nil {
 			m.xchecks++
-			xr, _ := m.xsolver.Check(m.pc, nc, false)
+			xr, _ := m.xsolver.Check(m.pcFull(), nc, false)
 			if xr != RUnsat {
 				m.inconclusiveF("solver disagreement on assertion %q: %s=unsat %s=%s", label, m.solver.name, m.xsolver.name, xr)
 			}
@@ -556,6 +715,8 @@ func (m *Machine) resetPath(p pending) {
 	m.schedSymbolic = m.schedSymbolicDefault
 	m.varMask = map[*Term]*[4]uint64{}
 	m.varMixed = map[*Term]bool{}
+	m.maskOrder = nil
+	m.known = map[*Term]uint64{}
 	if m.supMemo == nil {
 		m.supMemo = map[*Term][]*Term{}
 	}
